@@ -415,6 +415,7 @@ package kafka
 //@ func (*Conn).Close
 //@   trusted closes the network connection
 //@   modifies region($cclosed)
+//@   ensures c.conn.$cclosed
 
 // Pool typestate: after close() a batch references no decompression buffer any more, so the buffer it released
 // to bufferPool cannot be released a second time (which would hand one buffer to two later owners).
@@ -423,3 +424,27 @@ package kafka
 //@   modifies heap
 //@   ensures batch.conn == nil && batch.lock == nil
 //@   ensures batch.msgs != nil ==> batch.msgs.decompressed == nil
+
+//@ property C18
+
+//@ func (*Conn).saslHandshake
+//@   trusted performs the SaslHandshake exchange on the connection (its framing belongs to C04/C11)
+//@ func (*Conn).saslAuthenticate
+//@   trusted performs one SaslAuthenticate exchange (raw or framed, by handshake version)
+//@ func splitHostPortNumber
+//@   trusted address parsing
+
+// authenticateSASL reports success only if the mechanism's state machine reported done with a nil error
+// on the last step, after a successful handshake; every failing step is returned as an error.
+//@ func (*Dialer).authenticateSASL
+//@   option noframe
+//@   modifies heap
+//@   ensures result == nil ==> sess.$accepted
+//@   loop 0 invariant completed ==> sess.$accepted
+
+// connect never hands out a connection when authentication failed, and closes it.
+//@ func (*Dialer).connect
+//@   option noframe
+//@   modifies heap
+//@   ensures result1 != nil ==> result0 == nil
+//@   ensures result1 != nil && conn != nil ==> conn.conn.$cclosed
